@@ -27,6 +27,8 @@ pub use buffered::*;
 // Re-export Lease trait from core for convenience
 pub use d_engine_core::Lease;
 pub use lease::TtlLease;
+#[cfg(d_engine_verif)]
+pub use lease::verif_clock;
 
 #[cfg(test)]
 mod lease_integration_test;
